@@ -3,8 +3,8 @@
 //verif:assume diamonds are driven the way the CLI drives them, through the real code end to end: CreateDiamond; split add = NewSplit + CreateSplit + Split.Upload (real cafs writer); commit = GetDiamond + NewDiamond(clone) + Commit; cancel = NewDiamond + Cancel. Stores are the in-memory model, BLAKE2b an injective UF, yaml.v2 round-trips opaque documents, ksuid.NewRandom yields fresh increasing ids
 //verif:assume programs: every sequence of 3 (thorough: 4) operations over {add split s1 with files v1, add split s1 again with files v2, add split s2, commit, cancel}; crash model for VerifC12Crash: fail-stop stores at every mutating store call of a split upload or of a commit, landed or not, then a retry; interleavings for VerifC12Race: two concurrent operations (commit/commit, commit/cancel, cancel/cancel) with a preemption point before every mutating call (Put, Delete) on the metadata stores - every check-then-write window is opened - and at most 2 context switches (thorough: 3)
 //verif:cover VerifC12Programs committed refused-after-commit refused-after-cancel rerun-of-done-split-refused commit-without-split-refused
-//verif:cover VerifC12Crash split-crashed-then-rerun commit-crashed-then-retried replay-of-running-split-after-termination commit-retried-on-the-same-object
-//verif:cover VerifC12Race two-commits commit-and-cancel switched
+//verif:cover VerifC12Crash split-crashed-then-rerun commit-crashed-then-retried replay-of-running-split-after-termination commit-retried-on-the-same-object fault-while-operating-on-a-terminated-diamond
+//verif:cover VerifC12Race two-commits commit-and-cancel switched checksummed-store
 package core
 
 import (
@@ -136,7 +136,7 @@ func VerifC12Programs() {
 		vAssert(err == nil, "committed-bundle-is-readable")
 		vAssert(vSameKeys(got, wantFiles), "bundle-holds-exactly-the-files-of-the-completed-splits")
 	}
-	dd, err := GetDiamond("r", vDiamond, vCtxStoresAll(w.meta, w.vmeta, w.blob), DiamondLogger(zap.NewNop()))
+	dd, err := GetDiamond("r", vDiamond, w.stores(), DiamondLogger(zap.NewNop()))
 	vAssert(err == nil, "diamond-readable")
 	switch state {
 	case "done":
@@ -158,7 +158,46 @@ func VerifC12Crash() {
 	cr := &vCrasher{stores: []*vStore{w.meta, w.vmeta, w.blob}}
 	cr.crashAt = vInt("crashAt", 1, 13) // symbolic crash point
 	cr.landed = vChoose("landed", 2) == 1
-	if vChoose("victim", 2) == 0 {
+	victim := vChoose("victim", 3)
+	if victim == 2 {
+		// the diamond is terminated (committed or canceled); a further operation then meets one transient store
+		// fault at any of its store calls (reads included): it must not take the diamond for a live one
+		vNextSecond()
+		vAssert(w.splitAdd("s1", vFilesV1, []string{"a", "c"}) == nil, "split")
+		vNextSecond()
+		canceled := vChoose("terminator", 2) == 1
+		if canceled {
+			vAssert(w.cancel() == nil, "cancel")
+		} else {
+			_, e := w.commit(model.EnableConflicts)
+			vAssert(e == nil, "commit")
+		}
+		before := w.bundleIDs()
+		beforeV := vSnapshot(w.vmeta)
+		cr.allCalls, cr.transient, cr.landed = true, true, false
+		cr.install()
+		vNextSecond()
+		var err error
+		switch vChoose("laterOperation", 3) {
+		case 0:
+			_, err = w.commit(model.EnableConflicts)
+		case 1:
+			err = w.splitAdd("s2", vFilesS2, []string{"b", "c"})
+		default:
+			err = w.cancel()
+		}
+		cr.revive()
+		vAssume(cr.crashed)
+		vCover("fault-while-operating-on-a-terminated-diamond")
+		vAssert(err != nil, "operation-on-a-terminated-diamond-is-refused")
+		after := w.bundleIDs()
+		vAssert(len(after) == len(before), "terminated-diamond-produces-no-further-bundle")
+		_, s2done := w.vmeta.data[model.GetArchivePathToFinalSplit("r", vDiamond, "s2")]
+		vAssert(!s2done, "no-split-completes-on-a-terminated-diamond")
+		vAssert(w.vmeta.data[model.GetArchivePathToFinalDiamond("r", vDiamond)] != nil && string(w.vmeta.data[model.GetArchivePathToFinalDiamond("r", vDiamond)]) == beforeV[model.GetArchivePathToFinalDiamond("r", vDiamond)], "terminal-state-record-unchanged")
+		return
+	}
+	if victim == 0 {
 		// the first run of split s1 (files v1) dies; s1 is rerun with files v2; s2 is added; commit
 		cr.install()
 		vNextSecond()
@@ -285,6 +324,10 @@ func VerifC12Race() {
 	vBudget(600000000)
 	vUnwind(300000)
 	w := vNewDiamondWorld()
+	if vChoose("storeWithCRC", 2) == 1 {
+		w.crc = true // checksummed metadata writes (PutCRC), as the GCS backend has
+		vCover("checksummed-store")
+	}
 	vNextSecond()
 	vAssert(w.splitAdd("s1", vFilesV1, []string{"a", "c"}) == nil, "split")
 	bound := 2
@@ -342,7 +385,7 @@ func VerifC12Race() {
 	vAssertR(nCommitOK <= 1, "at-most-one-commit-succeeds", "C12-F1", kind == 0 && switches > 0)
 	vAssert(nCancelOK <= 1, "at-most-one-cancel-succeeds")
 	vAssertR(!(nCommitOK > 0 && nCancelOK > 0), "commit-and-cancel-do-not-both-succeed", "C12-F2", kind == 1 && switches > 0)
-	dd, err := GetDiamond("r", vDiamond, vCtxStoresAll(w.meta, w.vmeta, w.blob), DiamondLogger(zap.NewNop()))
+	dd, err := GetDiamond("r", vDiamond, w.stores(), DiamondLogger(zap.NewNop()))
 	vAssert(err == nil, "diamond-readable")
 	if nCommitOK+nCancelOK > 0 {
 		vAssert(dd.State != model.DiamondInitialized, "diamond-is-terminated-after-a-successful-terminal-operation")
